@@ -367,3 +367,94 @@ def like_deck(rnd, scenario, nsym=3):
     else:
         raise ValueError(scenario)
     return d, pre
+
+
+# ------------------------------------------------------------------ rectangular lattices
+def lattice_deck(rnd, dims=2, nsym=3, variant='array', skew=False):
+    """container (level 0) filled with universe 5 = one LAT=1 cell whose elements are filled from an array."""
+    d = dk.Deck()
+    pre = []
+    bud = Budget(rnd, nsym)
+    R = bud.num('R', pre, positive=True, choices=[6, 7, Fr(13, 2)])
+    d.surfs.append(dk.Surf(50, 'so', [R]))
+    cont = dk.Cell(1, ('s', -50), imp=1, fill=5)
+    if rnd.random() < 0.5:
+        cont.filltr = rand_tr(rnd, 'f', pre, budget=bud, rot=rnd.random() < 0.4)
+    elif rnd.random() < 0.3:
+        cont.trcl = rand_tr(rnd, 'c', pre, budget=bud, rot=False)
+    d.cells.append(cont)
+    # unit cell: pairs of parallel planes; per pair: (first-listed, second-listed)
+    axes = ['px', 'py', 'pz'][:dims]
+    rnd.shuffle(axes)
+    leaves = []
+    sid = 0
+    for ax in axes:
+        lo = bud.num('lo' + ax[1], pre, choices=[-1, Fr(-1, 2), 0])
+        pitch = bud.num('p' + ax[1], pre, positive=True, choices=[1, 2, Fr(3, 2)])
+        hi = (lo if isinstance(lo, RatFn) else RatFn.const(lo)) + (pitch if isinstance(pitch, RatFn) else RatFn.const(pitch))
+        hi = hi.as_const() if hi.as_const() is not None else hi
+        if skew and ax == axes[0] and dims >= 2:
+            # skew pair: planes x + y/2 = lo, hi  (normal (1, 1/2, 0) in the xy plane, or rotated accordingly)
+            nrm = {'px': (1, Fr(1, 2), 0), 'py': (Fr(1, 2), 1, 0), 'pz': (0, Fr(1, 2), 1)}[ax]
+            s_hi = dk.Surf(sid + 1, 'p', [Fr(nrm[0]), Fr(nrm[1]), Fr(nrm[2]), hi])
+            s_lo = dk.Surf(sid + 2, 'p', [Fr(nrm[0]), Fr(nrm[1]), Fr(nrm[2]), lo])
+        else:
+            s_hi = dk.Surf(sid + 1, ax, [hi])
+            s_lo = dk.Surf(sid + 2, ax, [lo])
+        sid += 2
+        d.surfs += [s_hi, s_lo]
+        # cell lies between: negative side of hi, positive side of lo; listing order decides the index direction
+        pair = [('s', -s_hi.id), ('s', s_lo.id)]
+        if rnd.random() < 0.5:
+            pair.reverse()
+        leaves += pair
+    lat = dk.Cell(2, ('and',) + tuple(leaves), imp=1, u=5, lat=1)
+    # index ranges
+    ranges = []
+    for k in range(dims):
+        ranges.append(rnd.choice([(0, 1), (-1, 0), (0, 0), (-1, 1), (1, 2), (-2, -1)]))
+    if dims < 3 and rnd.random() < 0.3:
+        ranges.append((0, 0))            # a trivial extra range is allowed
+    size = 1
+    for lo_, hi_ in ranges:
+        size *= hi_ - lo_ + 1
+    while size > 9:
+        k = rnd.randrange(len(ranges))
+        ranges[k] = (ranges[k][0], ranges[k][0])
+        size = 1
+        for lo_, hi_ in ranges:
+            size *= hi_ - lo_ + 1
+    # filling universes: distinct so that a wrong index order shows
+    d.mats = {}
+    nm = 0
+    univs_avail = []
+    for u in (1, 2, 3):
+        nm += 1
+        d.mats[nm] = [('13027', '1.0')]
+        rho = ['-1.0', '-2.0', '-3.0'][u - 1]
+        if u == 1:
+            d.cells.append(dk.Cell(10 + u, ('or', ('s', -50), ('s', 50)), mat=nm, rho=rho, imp=1, u=u))
+        else:
+            sph = dk.Surf(60 + u, 's', [Fr(0), Fr(0), Fr(0), bud.num('ru%d' % u, pre, positive=True, choices=[Fr(1, 2), Fr(3, 4)])])
+            d.surfs.append(sph)
+            nm += 1
+            d.mats[nm] = [('1001', '2'), ('8016', '1')]
+            d.cells.append(dk.Cell(10 + u, ('s', -sph.id), mat=nm - 1, rho=rho, imp=1, u=u))
+            d.cells.append(dk.Cell(20 + u, ('s', sph.id), mat=nm, rho='0.1', imp=1, u=u))
+        univs_avail.append(u)
+    if variant == 'array':
+        pool = univs_avail + [0, 5]
+        univs = [rnd.choice(pool) for _ in range(size)]
+        if all(u in (0, 5) for u in univs):
+            univs[0] = 2
+        lat.fill = dk.LatFill(ranges, univs)
+        if 5 in univs:
+            nm += 1
+            d.mats[nm] = [('13027', '1.0')]
+            lat.mat, lat.rho = nm, '-9.0'
+    else:
+        lat.fill = rnd.choice([2, 3])
+        d.lattice_opt = ['2,' + ','.join('%d:%d' % r for r in ranges)]
+    d.cells.insert(1, lat)
+    d.cells.append(dk.Cell(99, ('s', 50), imp=0))
+    return d, pre
